@@ -16,7 +16,7 @@ from harness.tlc import run_tlc, cases, validate_traces
 
 META = dict(
     spec='Text.tla, Trace_Text.tla',
-    text='TLC explores editor sessions (all token soups of <=3/4 tokens, every prefix of 4 valid programs, '
+    text='TLC explores editor sessions (all token soups of <=3/4 tokens, every prefix of 6 valid programs (two of them with values that mix objects of the buffer and builtins; the unedited programs are always replayed), '
          '1-2 token edits of them) and checks that the transcription of validate_line_column accepts exactly '
          'the positions inside the text (parso line rule incl. CRLF/CR/form feed). Every emitted buffer is '
          'executed: 7 position-taking query methods at every in-range and just-out-of-range position, the 4 '
